@@ -457,7 +457,22 @@ var streamProp = vh.Define("C12", "stream", func(c StreamCase, r *vh.R) {
 	off := 0
 	okCalls := 0
 	var heldGot, heldWant [][]byte
+	// a second Decoder object over an unrelated stream is used between the calls: two live
+	// decoders must not share anything
+	var shadow *cbor.Decoder
+	shadowAt := 0
 	for i, m := range c.Calls {
+		if i > 0 {
+			if shadow == nil || shadowAt == len(shadowItems) {
+				shadow, shadowAt = cbor.NewDecoder(bytes.NewReader(shadowStream)), 0
+			}
+			it := shadowItems[shadowAt]
+			shadowAt++
+			if sg := call(shadow, it.m); !sg.ok || sg.num != it.num || !bytes.Equal(sg.str, it.str) {
+				r.Failf("second-decoder-disturbed", "a second Decoder, used alternately with the one under test, returned ok=%v num=%#x str=%x for its item %d, want num=%#x str=%x", sg.ok, sg.num, trunc(sg.str), shadowAt-1, it.num, trunc(it.str))
+				return
+			}
+		}
 		got := call(dec, m)
 		ok, num, str, consumed, why := expected(b, off, m)
 		if got.ok != ok {
@@ -502,6 +517,31 @@ var streamProp = vh.Define("C12", "stream", func(c StreamCase, r *vh.R) {
 		}
 	}
 })
+
+type shadowItem struct {
+	m   string
+	num uint64
+	str []byte
+}
+
+var shadowItems = []shadowItem{
+	{m: "uint", num: 0x0102030405060708}, {m: "bytes", str: bytes.Repeat([]byte{'z'}, 300)}, {m: "array", num: 0xfffefdfc},
+	{m: "text", str: bytes.Repeat([]byte{'q'}, 24)}, {m: "map", num: 0xa1b2}, {m: "uint", num: 0xff}, {m: "bytes", str: []byte{}}, {m: "uint", num: 23},
+}
+
+var shadowStream = func() []byte {
+	var out []byte
+	for _, it := range shadowItems {
+		switch it.m {
+		case "bytes", "text":
+			out = append(out, refcbor.HeadW(methodMajor(it.m), uint64(len(it.str)), refcbor.MinWidth(uint64(len(it.str))))...)
+			out = append(out, it.str...)
+		default:
+			out = append(out, refcbor.HeadW(methodMajor(it.m), it.num, refcbor.MinWidth(it.num))...)
+		}
+	}
+	return out
+}()
 
 func TestPropStream(t *testing.T) {
 	streamProp.Rapid(t, func(t *rapid.T) StreamCase {
